@@ -26,6 +26,10 @@ def _type_at(tree_tok, path):
 
 def key_fn(case, obs, verdict):
     f = case.split(" ")
+    if f[0] == "hdr":
+        return "%s@hdr:util.DecodeHTTPConfigHeaders" % verdict.split(" ")[0].replace("BAD:", "")
+    if f[0] == "prop":
+        return "%s@prop:confutil.PropertyTagResolver" % verdict.split(" ")[0].replace("BAD:", "")
     off = 3 if f[0] == "comp" else 1
     what = verdict.split(" ")[0].replace("BAD:", "")
     mut = f[off].split(":")[0]
@@ -45,6 +49,12 @@ def key_fn(case, obs, verdict):
 
 def what_fn(case, obs, verdict):
     f = case.split(" ")
+    if f[0] == "hdr":
+        return "%s (header list %s; the implementation answered %s)" % (
+            verdict.replace("BAD:", ""), [_unhex(x) for x in f[2].split(",")] if f[1] != "0" else [], obs[-40:])
+    if f[0] == "prop":
+        return "%s (property file %r, key %r; the implementation answered %s)" % (
+            verdict.replace("BAD:", ""), _unhex(f[1])[:80], _unhex(f[2]), obs[:60])
     off = 3 if f[0] == "comp" else 1
     return "%s (mutation %s at /%s; the implementation answered %s)" % (
         verdict.replace("BAD:", ""), f[off].split(":")[0], "/".join(_path(f[off + 1])), obs[:40])
@@ -56,7 +66,7 @@ def run(ctx):
         rule=("non-trivial: base cases (valid configuration decoded, defaults and discard_overflow checked), and every "
               "mutation case on which the specification constrains the outcome (unknown key at a strict path, wrongly "
               "typed value, value violating its validate tag, missing required value, placeholder, unresolved "
-              "placeholder); distinct = distinct case lines"),
+              "placeholder); direct cases of the header-list decoder and of the property-file reader; distinct = distinct case lines"),
         key_fn=key_fn, what_fn=what_fn,
         translators=[("schema", "ConfigSchemaGen.v")],
         bridge_files=["Gen/ConfigSchema_bridge.v", "Properties/C17_depth.v", "Properties/C17_ctor.v"],
@@ -64,8 +74,9 @@ def run(ctx):
             "translator harness/cmd/translate schema (reflection over the real plugin registry after the CLI's imports; package harness/internal/a16schema)",
             "verif hooks in /repo: core/plugin/verif_schema.go (read-only registry listing), cli/verif_export.go (exports readConfig)",
             "extraction: ExtrOcamlBasic only; OCaml driver ocaml/C17/main.ml + ocaml/common/conv.ml",
-            "correspondence harness harness/cmd/hC17 (real config.DecodeAndValidate on cli.DefaultConfig() and on every registered default config; cli.readConfig in a subprocess)",
-            "oracles (Section variables; answered per case by the real libraries through the harness): os.LookupEnv, property files, time.ParseDuration, datasize, zapcore.Level.UnmarshalText, strconv.ParseInt/ParseFloat, endpoint/url-path validators",
+            "correspondence harness harness/cmd/hC17 (real config.DecodeAndValidate on cli.DefaultConfig() and on every registered default config; cli.readConfig in a subprocess; util.DecodeHeader / util.DecodeHTTPConfigHeaders and confutil.PropertyTagResolver called directly)",
+            "the table of constructor-enforced constraints in harness/internal/a16schema/reflect.go ctorConstraint (which option of which Go config type a constructor checks: http provider Headers); tied by the correspondence run on every component carrying it",
+            "oracles (Section variables; answered per case by the real libraries through the harness): os.LookupEnv, the bytes of the property files (the reader itself is modelled), time.ParseDuration, datasize, zapcore.Level.UnmarshalText, strconv.ParseInt/ParseFloat, endpoint/url-path validators",
             "modelled, not verified: mapstructure's decoding rules, validator.v9's tag semantics, the regexp of confutil.findTags (hand-written scanner), viper/YAML reading; component constructors are not modelled (bases are calibrated to construct)",
         ],
         assumptions=["mapstructure v1.5.1, validator.v9 and viper behave as modelled (exercised by the correspondence run)",
